@@ -542,6 +542,68 @@ def lua_data_caches(rep: C.Report) -> None:
         ob.detail += f"{type(e).__name__}: {e}"
 
 
+def cached_pages_not_mutated(rep: C.Report) -> None:
+    """Ob10: Page objects are shared between callers through the per-context memo on get_page(); processing one page must not
+    change what a later page (or the page itself, processed later) reads from the store.  Fact (AST, all of core.py,
+    luaexec.py, parser.py): no statement assigns to a field of the Page dataclass (title, namespace_id, redirect_to,
+    need_pre_expand, body, model) on an object other than `self`.  A hit is replayed: a page that transcludes a
+    main-namespace page with noinclude / onlyinclude parts is expanded, then the transcluded page is read and processed on
+    the same context and on a fresh one."""
+    ob = rep.add(C.Ob("Ob10 Page objects shared through the get_page memo are never modified", "AST fact (all assignments to Page fields) + replay over two pages", ["core.py", "luaexec.py", "parser.py", "core.py:Page"], "every assignment statement of the three modules"))
+    try:
+        ctree = ast.parse(open(os.path.join(C.SRC, "core.py")).read())
+        fields = set()
+        for cls in ast.walk(ctree):
+            if isinstance(cls, ast.ClassDef) and cls.name == "Page":
+                fields = {st.target.id for st in cls.body if isinstance(st, ast.AnnAssign) and isinstance(st.target, ast.Name)}
+        if not fields:
+            ob.verdict, ob.detail = C.NOT_ENCODABLE, "dataclass Page not found"
+            return
+        hits = []
+        n = 0
+        for mod in ("core.py", "luaexec.py", "parser.py"):
+            tree = ast.parse(open(os.path.join(C.SRC, mod)).read())
+            for st in ast.walk(tree):
+                tg = st.targets if isinstance(st, ast.Assign) else [st.target] if isinstance(st, (ast.AugAssign, ast.AnnAssign)) else []
+                for t in tg:
+                    for a in ast.walk(t):
+                        if isinstance(a, ast.Attribute) and isinstance(a.ctx, ast.Store):
+                            n += 1
+                            base = a.value
+                            if a.attr in fields and not (isinstance(base, ast.Name) and base.id in ("self", "ctx", "wtp", "node", "n", "cls")) and "page" in ast.unparse(base).lower():
+                                hits.append(f"{mod}:{st.lineno} {ast.unparse(t)}")
+        ob.conditions = ob.queries = ob.paths = n
+        ob.confirmed_conditions = n - len(hits)
+        ob.samples.append({"page_fields": sorted(fields), "attribute_stores": n, "stores_into_page_objects": hits})
+        if not hits and not C.distrust():
+            ob.verdict = C.DISCHARGED
+            return
+        from wikitextprocessor import Wtp
+
+        text = "intro <noinclude>only on the page itself</noinclude> mid <includeonly>only when included</includeonly> end"
+        oi = "a <onlyinclude>X</onlyinclude> b"
+        for title, ns, body in (("Glossary", 0, text), ("Appendix:Only", 100, oi), ("Glossary2", 0, oi)):
+            w = Wtp(quiet=True, quiet_output=True)
+            w.add_page(title, ns, body)
+            w.add_page("Index", 0, "see {{:" + title + "}}")
+            f = Wtp(quiet=True, quiet_output=True)
+            f.add_page(title, ns, body)
+            w.start_page("Index")
+            w.expand("see {{:" + title + "}}")
+            got_body = w.get_page_body(title, ns)
+            w.start_page(title)
+            got = w.expand(w.get_page_body(title, ns) or "")
+            f.start_page(title)
+            want = f.expand(f.get_page_body(title, ns) or "")
+            if got_body != body or got != want:
+                v = rep.violation(f"one context: add_page({title!r}, {ns}, {body!r}); expand('see {{{{:{title}}}}}') on page Index; then get_page_body({title!r}, {ns}) and its expansion", f"the page read back is {got_body!r} (stored: {body!r}); its expansion {got!r}, on a fresh context {want!r}: transcluding a page changed the cached Page object", {"title": title})
+                ob.verdict = C.VIOLATED if v.known is None else C.KNOWN
+                return
+        ob.detail = f"{hits} but the transcluded pages read back unchanged -> inconclusive"
+    except Exception as e:  # noqa: BLE001
+        ob.detail += f"{type(e).__name__}: {e}"
+
+
 def begline_invariant(rep: C.Report) -> None:
     """Ob9: the havoc harness assumes a representation invariant at API boundaries - line-start syntax enabled, disable counter
     zero.  Nothing resets the two fields per page, so the invariant rests on the object used as `with ctx.begline_disabled...:`
@@ -654,7 +716,7 @@ def run(rep: C.Report) -> None:
         "container shapes are fixed (two cookies, one message per list, three path entries), their contents are symbolic",
         "symbolic strings are not used as dict keys (rev_ht / strip_marker_cache get concrete keys and symbolic values)",
     ]
-    rep.outside += ["Lua-side state (globals, module caches, library tables)", "documents outside the catalogue", "state kept in SQLite"]
+    rep.outside += ["Lua-side state (globals, module caches, library tables)", "documents outside the catalogue", "state kept in SQLite beyond Ob10"]
     rep.trusted += ["CrossHair 0.0.110", "z3", "vf/astpaths.py"]
     xh.check_harness(
         rep,
@@ -676,6 +738,7 @@ def run(rep: C.Report) -> None:
     class_level_state(rep)
     cached_chunks_rebound(rep)
     begline_invariant(rep)
+    cached_pages_not_mutated(rep)
 
 
 def replay(r: dict) -> int:
